@@ -10,12 +10,14 @@ use crate::scpi1999::EventRegister;
 use scpi::tree::prelude::*;
 
 #[kani::proof_for_contract(crate::scpi1999::EventRegister::set_condition)]
+#[kani::unwind(8)]
 pub fn set_condition_contract() {
     let mut r = any_reg();
     r.set_condition(kani::any());
 }
 
 #[kani::proof]
+#[kani::unwind(8)]
 pub fn set_condition_post() {
     let r0 = any_reg();
     let mut r = r0;
@@ -28,6 +30,7 @@ pub fn set_condition_post() {
 }
 
 #[kani::proof]
+#[kani::unwind(8)]
 pub fn set_clear_condition_bits() {
     let r0 = any_reg();
     let m: u16 = kani::any();
@@ -45,6 +48,7 @@ pub fn set_clear_condition_bits() {
 }
 
 #[kani::proof]
+#[kani::unwind(8)]
 pub fn preset_clear_summary() {
     let r0 = any_reg();
     let mut r = r0;
@@ -63,6 +67,7 @@ pub fn preset_clear_summary() {
 
 /// History step: two successive updates latch the union, a read in between clears (ghost L_b).
 #[kani::proof]
+#[kani::unwind(8)]
 pub fn history_two_steps() {
     let r0 = any_reg();
     let mut r = r0;
